@@ -9,16 +9,22 @@ with the real `model(x*)` under the policy — for every order of switching poli
 exact MLL (rescaled by the observed count), with `expected_log_prob` / `log_marginal`, and with a fresh model built
 on the observed subset.  No NaN may appear in any output.
 """
+import contextlib
 import copy
 import itertools
 import math
 import os
+import re
+import time
 import warnings
 from fractions import Fraction
 
 from lib import common as C
 from props import _gpmodels as G
-from props.c01 import _lines_parallel, _np, _absmax, _norm_inf, EPS, generate  # noqa: F401  (generate: translator G7)
+from props import c01 as _c01
+from props.c01 import _lines_parallel, _np, _absmax, _norm_inf, EPS
+
+_T0 = time.time()          # the module is imported when the run starts: origin of the wall-clock budget of `search`
 
 ID = "C16"
 PROP_MODULES = ["GPVerif.Props.C16"]
